@@ -12,16 +12,17 @@
      (2) the body SHRINKS the array under the index: `arrayGet` out of range fails, the wrapper returns null (and logs in debug
          mode); the loop still runs the number of iterations taken at the start, the value variable is null from there on.
 
-   This file defines [XExec chk] / [XLoop chk]: ALL rules of UExec / ULoop plus rules for (1) and (2).  The flag [chk] switches
-   the remaining side conditions ([is_lib], [Inv3]): [XExec true] has them (and contains UExec: [UExec_XExec]); [XExec false] is
-   the reading WITHOUT them ("the expression evaluates; iterate over the live array").  Proofs/C01side2.v proves that under a
-   syntactic criterion XExec false implies XExec true.
+   This file defines [XExec EV chk] / [XLoop EV chk]: ALL rules of UExec / ULoop plus rules for (1) and (2).  The flag [chk]
+   switches the remaining side conditions ([is_lib], [Inv3]): [XExec EV true] has them (and, for EV = Ev, contains UExec:
+   [UExec_XExec]); [XExec EV false] is the reading WITHOUT them ("the expression evaluates; iterate over the live array").
+   [EV] is the evaluation relation of expressions: [Ev], or [EvQ Q] = Ev restricted to evaluations satisfying Q.
+   Proofs/C01side2.v proves that under a syntactic criterion XExec (EvQ ..) false implies XExec Ev true.
 
-   [xsim]: the simulation theorem of Proofs/C01u.v ([usim]) for [XExec true]: a fresh mutual induction with the same four
+   [xsim]: the simulation theorem of Proofs/C01u.v ([usim]) for [XExec Ev true]: a fresh mutual induction with the same four
    invariants; the per-iteration machine lemmas of Proofs/C01forN.v ([to_inc_g], [advance_g], [iter_g], [head_*]) are reused, the
    two new machine facts are [head_notarr] and [iter_gone].
    New premises on the library: [arrayLength_fail_contract], [arrayGet_range_contract] (proved for Model/LibCore.v libcore below).
-   [xexec] / [xexec_sound]: executable reading. *)
+   [xexec qb] / [xexec_sound]: executable reading (qb: a decision procedure for the restriction Q of the evaluation relation). *)
 From Coq Require Import Lia List Bool ZArith.
 From BS Require Import Model.Base Model.Num Model.Arith Model.ExprParser Model.Script Model.Interp
                        Proofs.BaseFacts Proofs.InterpEq Proofs.Fuel Proofs.C08 Proofs.C01 Proofs.C01b Proofs.Blind Proofs.C01for Proofs.C01forN
